@@ -129,6 +129,23 @@ def bounded_cases(seed, thorough=False):
     ids_t = {k: v.iso_id for k, v in twice.items()}
     coll = [f"{a} == {b}" for i, a in enumerate(ids_t) for b in list(ids_t)[i + 1:] if ids_t[a] == ids_t[b]]
     yield {'name': 'construction_route|repeated_points_are_content', 'ok': not coll, 'detail': '; '.join(coll[:3])}
+    # equality is agreement of the identifiers: for every pair above and for metadata whose Python value does not compare equal to
+    # its own copy (nan) or to its parsed form (a tuple comes back as a list), a == b exactly when the identifiers agree
+    pairs_eq = []
+    for label, extra in (('tuple_valued_metadata', {'activation_range': (120, 150)}), ('nan_valued_metadata', {'sample_mass': float('nan')}),
+                         ('nested_list_metadata', {'steps': [[1, 2], [3, 4]]})):
+        for kind_, mk_ in (('point', lambda e: pygaps.PointIsotherm(pressure=p, loading=l, **dict(meta, **e))), ('base', lambda e: pygaps.core.baseisotherm.BaseIsotherm(**dict(meta, **e)))):
+            try:
+                a_ = mk_(extra)
+                b_ = pgp.isotherm_from_json(a_.to_json())
+                c_ = mk_({k: (float('nan') if v != v else v) for k, v in extra.items()} if label == 'nan_valued_metadata' else dict(extra))
+                for tag, x_, y_ in (('parsed export', a_, b_), ('built again', a_, c_)):
+                    same_id = x_.iso_id == y_.iso_id
+                    if (x_ == y_) != same_id or (y_ == x_) != same_id or (x_ != y_) == same_id:
+                        pairs_eq.append(f"{label}/{kind_}/{tag}: identifiers agree: {same_id}, a == b: {x_ == y_}, a != b: {x_ != y_}")
+            except Exception as exc:
+                pairs_eq.append(f"{label}/{kind_}: {type(exc).__name__}: {exc}"[:120])
+    yield {'name': 'construction_route|equality_agrees_with_identifier', 'ok': not pairs_eq, 'detail': '; '.join(pairs_eq[:3])}
     ints = pygaps.PointIsotherm(pressure=[1, 2, 3], loading=[1, 2, 3], **meta).iso_id
     flts = pygaps.PointIsotherm(pressure=[1., 2., 3.], loading=[1., 2., 3.], **meta).iso_id
     yield {'name': 'construction_route|integer_vs_float_literals', 'ok': ints == flts, 'detail': '' if ints == flts else f"{ints} != {flts}"}
